@@ -91,7 +91,7 @@ PROPS = {
         ],
         "units": [
             regress("C06"),
-            {"run": "^TestC06$", "quick": 25000, "thorough": 150000, "timeout_quick": 900},
+            {"run": "^TestC06$", "quick": 15000, "thorough": 150000, "timeout_quick": 900},
             {"fuzz": "FuzzFile", "fuzztime": "90s", "thorough_only": True, "run": "FuzzFile"},
             {"fuzz": "FuzzBody", "fuzztime": "90s", "thorough_only": True, "run": "FuzzBody"},
             {"fuzz": "FuzzSchema", "fuzztime": "60s", "thorough_only": True, "run": "FuzzSchema"},
